@@ -10,6 +10,7 @@ import (
 	"sync"
 	"sync/atomic"
 	"time"
+	"unsafe"
 
 	goa "goa.design/goa/v3/pkg"
 	"google.golang.org/grpc"
@@ -33,6 +34,20 @@ type GRPCObs struct {
 	Trailer  metadata.MD // response trailers seen by the client
 	RespMsg  string
 	Handlers int32 // number of times the registered server implementation was entered
+
+	active sync.WaitGroup // server handlers of this call that have not returned yet
+}
+
+// waitHandlers waits until every server handler entered for this call has returned.
+func (o *GRPCObs) waitHandlers(max time.Duration) bool {
+	done := make(chan struct{})
+	go func() { o.active.Wait(); close(done) }()
+	select {
+	case <-done:
+		return true
+	case <-time.After(max):
+		return false
+	}
 }
 
 // GRPCSvc is the gRPC transport of a mounted service: the generated gRPC server registered on
@@ -47,6 +62,41 @@ type GRPCSvc struct {
 	obs    atomic.Pointer[GRPCObs]
 	call   atomic.Pointer[Call]
 	types  map[string]any // "service" role symbols (type registry)
+
+	// calls that may overlap (InvokeOn): the call record is found through a request metadata key
+	newClient reflect.Value  // the generated NewClient(cc, opts...)
+	pbSyms    map[string]any // exported functions of the pb package
+	plainMu   sync.Mutex
+	plainCC   *grpc.ClientConn // a second connection whose client interceptors only hold calls on request (NewClientWith)
+	flights   sync.Map         // id -> *gFlight
+	flightSeq atomic.Int64
+}
+
+// gFlight is one call in flight made with InvokeOn.
+type gFlight struct {
+	call *Call
+	obs  *GRPCObs
+	hold func() // runs in the client interceptor of the NewClientWith connection, before the RPC starts
+}
+
+// flightKey is the request metadata key that carries the identity of a call made with InvokeOn
+// from the client to the server interceptors (a context value does not cross the connection).
+const flightKey = "verif-call"
+
+type flightCtxKey struct{}
+
+// flightOf finds the call record of an incoming request made with InvokeOn and returns a context
+// in which the stub hook finds it (callKey).
+func (g *GRPCSvc) flightOf(ctx context.Context) (context.Context, *gFlight) {
+	md, _ := metadata.FromIncomingContext(ctx)
+	if ids := md.Get(flightKey); len(ids) > 0 {
+		if f, ok := g.flights.Load(ids[0]); ok {
+			fl := f.(*gFlight)
+			ctx = context.WithValue(ctx, callKey{}, fl.call)
+			return context.WithValue(ctx, flightCtxKey{}, fl), fl
+		}
+	}
+	return ctx, nil
 }
 
 var (
@@ -136,31 +186,42 @@ func MountGRPC(s *Svc) (*GRPCSvc, error) {
 	if !ok {
 		return nil, fmt.Errorf("%s/%s: generated gRPC client package has no NewClient", s.Design, s.Service.Name)
 	}
-	g.client = reflect.ValueOf(newClient).Call([]reflect.Value{reflect.ValueOf(cc)})[0] // NewClient(cc, opts...)
+	g.newClient = reflect.ValueOf(newClient)
+	g.pbSyms = psyms
+	g.client = g.newClient.Call([]reflect.Value{reflect.ValueOf(cc)})[0] // NewClient(cc, opts...)
 	return g, nil
 }
 
-func (g *GRPCSvc) recovered(r any) error {
+func (g *GRPCSvc) recovered(fl *gFlight, r any) error {
 	msg := fmt.Sprintf("%v\n%s", r, trimStack(debug.Stack()))
-	if c := g.call.Load(); c != nil {
+	if fl != nil {
+		fl.call.ServerPanic = msg
+	} else if c := g.call.Load(); c != nil {
 		c.ServerPanic = msg
 	}
 	return status.Error(codes.Internal, "verif: server handler panicked: "+firstLine(msg))
 }
 
 func (g *GRPCSvc) unaryInterceptor(ctx context.Context, req any, info *grpc.UnaryServerInfo, handler grpc.UnaryHandler) (resp any, err error) {
-	if o := g.obs.Load(); o != nil {
+	o := g.obs.Load()
+	ctx, fl := g.flightOf(ctx)
+	if fl != nil {
+		o = fl.obs
+	}
+	if o != nil {
 		atomic.AddInt32(&o.Handlers, 1)
+		o.active.Add(1)
+		defer o.active.Done()
 		o.ReqMsg = fmt.Sprint(req)
 		o.ReqMD, _ = metadata.FromIncomingContext(ctx)
 	}
 	defer func() {
 		if r := recover(); r != nil {
-			resp, err = nil, g.recovered(r)
+			resp, err = nil, g.recovered(fl, r)
 		}
 	}()
 	resp, err = handler(ctx, req)
-	if o := g.obs.Load(); o != nil && resp != nil {
+	if o != nil && resp != nil {
 		o.RespMsg = fmt.Sprint(resp)
 	}
 	return resp, err
@@ -168,8 +229,11 @@ func (g *GRPCSvc) unaryInterceptor(ctx context.Context, req any, info *grpc.Unar
 
 type obsServerStream struct {
 	grpc.ServerStream
-	o *GRPCObs
+	o   *GRPCObs
+	ctx context.Context
 }
+
+func (w *obsServerStream) Context() context.Context { return w.ctx }
 
 func (w *obsServerStream) RecvMsg(m any) error {
 	err := w.ServerStream.RecvMsg(m)
@@ -181,16 +245,22 @@ func (w *obsServerStream) RecvMsg(m any) error {
 
 func (g *GRPCSvc) streamInterceptor(srv any, ss grpc.ServerStream, info *grpc.StreamServerInfo, handler grpc.StreamHandler) (err error) {
 	o := g.obs.Load()
+	ctx, fl := g.flightOf(ss.Context())
+	if fl != nil {
+		o = fl.obs
+	}
 	if o != nil {
 		atomic.AddInt32(&o.Handlers, 1)
+		o.active.Add(1)
+		defer o.active.Done()
 		o.ReqMD, _ = metadata.FromIncomingContext(ss.Context())
 	}
 	defer func() {
 		if r := recover(); r != nil {
-			err = g.recovered(r)
+			err = g.recovered(fl, r)
 		}
 	}()
-	return handler(srv, &obsServerStream{ss, o})
+	return handler(srv, &obsServerStream{ss, o, ctx})
 }
 
 // GRPCCallTimeout bounds one client call (a deadlock between the two stream ends must not
@@ -230,6 +300,120 @@ func (g *GRPCSvc) Invoke(call *Call, obs *GRPCObs, m string, payload any, drive 
 	return res, err
 }
 
+// holdUnary / holdStream are the client interceptors of the NewClientWith connection: a call made
+// with InvokeOn and a hold function waits there, before the RPC starts, the way a call waits in an
+// authentication, rate-limiting or retry interceptor of a program; every other call passes.
+func (g *GRPCSvc) holdUnary(ctx context.Context, method string, req, reply any, cc *grpc.ClientConn, invoker grpc.UnaryInvoker, opts ...grpc.CallOption) error {
+	g.holdHere(ctx)
+	return invoker(ctx, method, req, reply, cc, opts...)
+}
+
+func (g *GRPCSvc) holdStream(ctx context.Context, desc *grpc.StreamDesc, cc *grpc.ClientConn, method string, streamer grpc.Streamer, opts ...grpc.CallOption) (grpc.ClientStream, error) {
+	g.holdHere(ctx)
+	return streamer(ctx, desc, cc, method, opts...)
+}
+
+func (g *GRPCSvc) holdHere(ctx context.Context) {
+	md, _ := metadata.FromOutgoingContext(ctx)
+	if ids := md.Get(flightKey); len(ids) > 0 {
+		if f, ok := g.flights.Load(ids[0]); ok {
+			if h := f.(*gFlight).hold; h != nil {
+				h()
+			}
+		}
+	}
+}
+
+// NewClientWith builds one more generated client, NewClient(conn, opts...), on a connection of
+// its own whose client interceptors do nothing but hold a call when asked to (holdUnary). The opts slice is handed over as it is (reflect CallSlice:
+// length and capacity are what the caller chose), exactly as a program calling
+// NewClient(conn, opts...) does.
+//
+// stub names the protocol buffer client the generated client drives: "v1.5" is the one the
+// generated constructor wires in (New<Svc>Client of the stand-in's <svc>_grpc.pb.go, in the shape
+// of protoc-gen-go-grpc v1.5: every method copies its call options); "v1.3" is the stand-in's
+// New<Svc>ClientV13, in the shape of the plugin up to v1.3 (the options go to the connection as
+// received). The generated Client holds it in a field of the pb client INTERFACE type, but its
+// constructor hard-wires New<Svc>Client: the harness stores the other implementation into that
+// field (reflect + unsafe; nothing else of the generated client is touched).
+func (g *GRPCSvc) NewClientWith(opts []grpc.CallOption, stub string) (reflect.Value, error) {
+	g.plainMu.Lock()
+	defer g.plainMu.Unlock()
+	if g.plainCC == nil {
+		cc, err := grpc.NewClient("passthrough:///verif-bufconn",
+			grpc.WithContextDialer(func(ctx context.Context, _ string) (net.Conn, error) { return g.lis.DialContext(ctx) }),
+			grpc.WithTransportCredentials(insecure.NewCredentials()),
+			grpc.WithChainUnaryInterceptor(g.holdUnary), grpc.WithChainStreamInterceptor(g.holdStream))
+		if err != nil {
+			return reflect.Value{}, fmt.Errorf("grpc.NewClient: %w", err)
+		}
+		g.plainCC = cc
+	}
+	var client reflect.Value
+	if opts == nil {
+		client = g.newClient.Call([]reflect.Value{reflect.ValueOf(g.plainCC)})[0]
+	} else {
+		client = g.newClient.CallSlice([]reflect.Value{reflect.ValueOf(g.plainCC), reflect.ValueOf(opts)})[0]
+	}
+	if stub == "" || stub == "v1.5" {
+		return client, nil
+	}
+	var ctor reflect.Value
+	for k, v := range g.pbSyms {
+		if strings.HasPrefix(k, "New") && strings.HasSuffix(k, "ClientV13") {
+			ctor = reflect.ValueOf(v)
+		}
+	}
+	if !ctor.IsValid() {
+		return reflect.Value{}, fmt.Errorf("pb package has no New<Service>ClientV13 (stand-in protoc too old?)")
+	}
+	pbc := ctor.Call([]reflect.Value{reflect.ValueOf(g.plainCC)})[0]
+	if client.Kind() != reflect.Ptr || client.Elem().Kind() != reflect.Struct {
+		return reflect.Value{}, fmt.Errorf("generated client is a %s, not a pointer to a struct", client.Type())
+	}
+	f := client.Elem().FieldByName("grpccli")
+	if !f.IsValid() || !pbc.Type().AssignableTo(f.Type()) {
+		return reflect.Value{}, fmt.Errorf("generated client %s has no field grpccli of the pb client interface type", client.Type())
+	}
+	reflect.NewAt(f.Type(), unsafe.Pointer(f.UnsafeAddr())).Elem().Set(pbc)
+	return client, nil
+}
+
+// InvokeOn is Invoke on a given generated client (NewClientWith) without the per-service
+// serialisation: the call record is registered under an identifier that travels as request
+// metadata, the server interceptors hand it to the stub hook through the handler's context, so any
+// number of calls may be in flight on one mounted service. It takes no lock and does not touch
+// the single-call observation slots used by Invoke.
+//
+// hold, when not nil, runs in the connection's client interceptor before the RPC starts.
+func (g *GRPCSvc) InvokeOn(client reflect.Value, call *Call, obs *GRPCObs, m string, payload any, drive func(stream any) (any, error), hold func()) (res any, err error) {
+	s := g.S
+	id := fmt.Sprintf("c%d", g.flightSeq.Add(1))
+	g.flights.Store(id, &gFlight{call: call, obs: obs, hold: hold})
+	defer g.flights.Delete(id)
+	call.Method = m
+	epm := client.MethodByName(s.GoMethod(m))
+	if !epm.IsValid() {
+		return nil, fmt.Errorf("harness: gRPC client has no endpoint method for %q", m)
+	}
+	ep := epm.Call(nil)[0].Interface().(goa.Endpoint)
+	ctx, cancel := context.WithTimeout(context.Background(), GRPCCallTimeout)
+	defer cancel()
+	ctx = metadata.AppendToOutgoingContext(ctx, flightKey, id)
+	defer func() {
+		if r := recover(); r != nil {
+			err = fmt.Errorf("client panic: %v\n%s", r, trimStack(debug.Stack()))
+			res = nil
+			call.ServerPanic += "client-side panic: " + fmt.Sprint(r) + "\n" + trimStack(debug.Stack())
+		}
+	}()
+	res, err = ep(ctx, payload)
+	if err == nil && drive != nil {
+		res, err = drive(res)
+	}
+	return res, err
+}
+
 // clientUnary observes the response header and trailer metadata of unary calls on the client
 // connection (next to the grpc.Header / grpc.Trailer options goa's invoker passes itself).
 func (g *GRPCSvc) clientUnary(ctx context.Context, method string, req, reply any, cc *grpc.ClientConn, invoker grpc.UnaryInvoker, opts ...grpc.CallOption) error {
@@ -245,6 +429,9 @@ func (g *GRPCSvc) clientUnary(ctx context.Context, method string, req, reply any
 // Close releases the transport.
 func (g *GRPCSvc) Close() {
 	_ = g.cc.Close()
+	if g.plainCC != nil {
+		_ = g.plainCC.Close()
+	}
 	g.srv.Stop()
 }
 
